@@ -66,6 +66,57 @@ def fam(*names):
     return [f'Z80/Proofs/Obl/{n}_*.lean' for n in names]
 
 
+def is_im0_data(v):
+    t = v.split()
+    if t[19] == '-':
+        return False
+    ty, data = t[19].split(':')
+    return ty != '0' and t[15][0] == '1' and t[16] == '0' and data != ''
+
+
+def im0_window_hit(v, spec_line):
+    """does the reference write into [PC, PC+len) (where the implementation drops writes)?"""
+    t = v.split()
+    pc = int(t[14], 16)
+    n = len(t[19].split(':')[1]) // 2
+    m = re.search(r' MEM (\S+)', spec_line or '')
+    if not m or m.group(1) == '-':
+        return False
+    for item in m.group(1).split(','):
+        a = int(item.split('=')[0], 16)
+        if (a - pc) % 65536 < n:
+            return True
+    return False
+
+
+def corr_intr(n_quick, n_thorough):
+    def run(ctx, chk, broken):
+        n = n_thorough if ctx.tier == 'thorough' else n_quick
+        vectors = chk.gen_vectors('intr', ['-seed', str(ctx.seed), '-n', str(n)])
+        dis, stats, go = chk.correspond(ctx, vectors, want_spec=True, extra_streams=('kf',))
+        kf_bad = {vid for (st, vid, v, g, o) in dis if st == 'kf'}
+        out = []
+        for (st, vid, v, g, o) in dis:
+            d = {'stream': st, 'id': vid, 'vector': v, 'real': g, 'other': o}
+            if st == 'spec' and vid not in kf_bad and is_im0_data(v):
+                # the real code deviates from the reference exactly as the recorded description of mode 0 says
+                d['known'] = 'KF-2' if im0_window_hit(v, o) else 'KF-1'
+            out.append(d)
+        ids = [l.split(' ', 1)[0] for l in vectors.splitlines() if l.strip()]
+        classes = set()
+        for l in vectors.splitlines():
+            t = l.split()
+            if len(t) > 20:
+                ty, data = t[19].split(':') if ':' in t[19] else ('-', '')
+                classes.add((ty, t[16], t[15], min(len(data) // 2, 4)))
+        cov = {'evaluations': len(ids), 'distinct_nontrivial': len(classes),
+               'rule': 'one vector = 1-2 Steps of the real code from a generated state with a pending request; request kind x IM x IFF1 x IFF2 x halted '
+                       'enumerated, data shapes (RST, CALL nn, single byte, random, empty, vector byte) sampled; distinct = distinct (type, IM, IFF1/IFF2/HALT, data length) classes',
+               'correspondence': stats}
+        return out, cov
+    return run
+
+
 PROPS = {
     'C01': {
         'targets': ['Z80.Props.C01'],
@@ -98,6 +149,14 @@ PROPS = {
         'correspond': corr_slots(40, 400, family=['Jump', 'CallRet', 'Stack']),
         'assumptions': ['user memory is a byte store (needed for the CALL;RET and PUSH;POP round trips)'],
         'explanation': 'slot obligations of Jump/CallRet/Stack; taken iff condition for all F; push layout; CALL;RET and PUSH;POP round trips for every state incl. SP wrap',
+    },
+    'C06': {
+        'targets': ['Z80.Props.C06'],
+        'count': ['Z80/Proofs/Interrupt.lean', 'Z80/Proofs/Frame.lean', 'Z80/Props/C06.lean'] + ALL_OBL,
+        'correspond': corr_intr(3000, 60000),
+        'assumptions': ['request types: Type = 0 is NMI, anything else maskable', 'IM 0 / IM 2 requests without data and IM outside {0,1,2} are outside the property; the code\'s behaviour (dropped / never accepted) is recorded in the specification',
+                        'mode 0 with supplied bytes: see known findings KF-1, KF-2, KF-3'],
+        'explanation': 'Gen.Step with a pending request = abstract interrupt controller (NMI, refused, IM 1, IM 2, empty, bad mode) for every state; pending-request induction; EI/DI/RETN/RETI',
     },
     'C16': {
         'targets': ['Z80.Props.C16'],
